@@ -215,6 +215,13 @@ def main():
       "observed_clauses": spec["clauses"], "design_invariants": DESIGN_INVS,
       "samples": [dict(scenario=r["scn"], outcome=r["outcome"], why=r["why"], concrete_ops=r.get("codes")) for r in results[:2] + results[-2:]],
   })
+  if prop == "C01":
+    # the one transformation outside Pipeline.tla's vocabulary: the block-wise (emulated sub-channel) replacement of FULLY_CONNECTED
+    from checks import subchannel
+    sc = subchannel.run(chk, args)
+    chk.cov.update(sc)
+    chk.cov["states"] += sc.get("subchannel_states", 0)
+    chk.cov["traces_validated_against_impl"] += sc.get("subchannel_graphs_judged", 0)
   chk.assumptions += [
       "TLC, the flatbuffer object API (synthesis and projection) and the LiteRT interpreter are trusted",
       "spec->code replays use injected generic statistics (structural parameter equality = numeric equality)",
